@@ -838,6 +838,9 @@ class OdeSystem(object):
     def __get_integrator_mask(self, staggered_mask):
         if staggered_mask is None and hasattr(self.integrator, "staggered_mask"):
             return self.integrator.staggered_mask
+        if staggered_mask is None:
+            # a mask given through set_kick_vars while a non-symplectic method was selected is kept for the next symplectic one
+            return self.staggered_mask
         return staggered_mask
 
     @property
